@@ -23,6 +23,8 @@ import Driver.Asf
 import Driver.OggInject
 import Driver.InfoA
 import Driver.InfoB
+import Driver.DictX
+import Driver.FlacBlocks
 open Driver
 
 def dispatch (line : String) : String :=
@@ -55,6 +57,8 @@ def dispatch (line : String) : String :=
     | "ogginject" => ogginjectOp a
     | "infoa" => infoAOp a
     | "infob" => infoBOp a
+    | "dictx" => dictxOp a
+    | "flacblk" => flacblkOp a
     | "flacinfo" => flacInfoOp a
     | "ping" => "pong"
     | _ => "bad-op"
